@@ -172,7 +172,7 @@ func VerifC06Tamper() {
 	if err := proto.Unmarshal(st.Get(vfs.KindToken, idB), storedB); err != nil {
 		panic(err)
 	}
-	tamper := vf.Int("tamper", 0, 4)
+	tamper := vf.Int("tamper", 0, 5)
 	switch tamper {
 	case 1: // B's sealed creation time moved into A's record
 		storedA.CreationTimeMarshaled = storedB.CreationTimeMarshaled
@@ -192,6 +192,12 @@ func VerifC06Tamper() {
 		if storedA.CreationTimeMarshaled, err = proto.Marshal(blob); err != nil {
 			panic(err)
 		}
+	case 5: // the record replaced by an unsealed one carrying a fresh clear-text creation time
+		fresh, err := proto.Marshal(timestamppb.New(t0))
+		if err != nil {
+			panic(err)
+		}
+		storedA = &types.ServerLedActivationToken{Id: idA, CreationTimeMarshaled: fresh}
 	}
 	if tamper != 0 {
 		b, err := proto.Marshal(storedA)
@@ -209,7 +215,9 @@ func VerifC06Tamper() {
 	vf.Assume(vf.TimeLE(tEnd, t0.Add(time.Second)))
 	if vfIssued(resp, err) {
 		vf.Reach("enrolled")
-		if wrapped {
+		if wrapped && tamper == 5 {
+			vf.Assert("clear-text-replacement-record-cannot-extend-expiry", vf.TimeLE(tStart, createdA.Add(maxLife)))
+		} else if wrapped {
 			vf.Assert("sealed-expiry-governs", vf.TimeLE(tStart, createdA.Add(maxLife)))
 			vf.Assert("sealed-values-do-not-move-between-tokens", vf.And(tamper != 1, vf.And(tamper != 2, tamper != 4)))
 		} else if tamper == 0 {
